@@ -173,6 +173,8 @@ fn generate(prop: &str, tier: &str, seed: u64, out: &mut util::Out) {
         "C14" => {
             relc14::generate_c14(tier, seed, out);
             lossybuild::generate_c14_build(tier, seed, out);
+            // the lossy reader / printer on arbitrary short texts (model = code outside the domain)
+            rel::generate_c14pre_every(tier, seed, out, if tier == "thorough" { 1 } else { 3 });
         }
         "C15" => {
             typed::generate_c15(tier, seed, out);
@@ -193,7 +195,11 @@ fn generate(prop: &str, tier: &str, seed: u64, out: &mut util::Out) {
         "C08" => lossy::generate_c08(tier, seed, out),
         "C09" => rel::generate_c09(tier, seed, out),
         "C10pre" => rel::generate_c10pre(tier, seed, out),
-        "C10" => rel::generate_c10(tier, seed, out),
+        "C10" => {
+            rel::generate_c10(tier, seed, out);
+            // accessors / Version::from_str on arbitrary short texts (model = code outside WF)
+            rel::generate_c10pre_every(tier, seed, out, if tier == "thorough" { 4 } else { 2 });
+        }
         "C14pre" => rel::generate_c14pre(tier, seed, out),
         _ => {}
     }
